@@ -80,6 +80,16 @@ def frag_set_case(rng):
                                 '{a}c[n+](CC)c{b}']).format(a=d(), b=d())
         feats.add('charged_aromatic_atom_at_fragment_border')
         nd += 1
+    if not coarse and rng.random() < 0.05:
+        # ten or more ring bonds in ONE fragment (a ladder of small rings, an oligo-phenylene): the writer numbers them
+        # past 9 while at most one or two markers are open at a time
+        d = lambda: M.fmt_desc(rng.choice(['$', '<', '>']), rng.choice(C13.LABELS), 1)
+        unit = rng.choice(['C1CC1', 'C1CCC1', 'c1ccc(cc1)-'])
+        k = rng.randint(10, 13)
+        body = unit * k
+        frs['T7'] = 'C' + d() + body + ('C' if unit.endswith('-') else '') + d()
+        feats.add('ten_or_more_ring_bonds_in_one_fragment')
+        nd += 2
     return dict(kind='fragset', coarse=coarse, string='{' + ','.join('#%s=%s' % kv for kv in frs.items()) + '}',
                 features=sorted(feats), ndesc=nd)
 
